@@ -19,17 +19,31 @@ _k = 0
 
 
 def _install_gap(k):
-    """allocate k junk instances before every WireVector construction"""
+    """allocate junk instances before every WireVector / memory construction: k before each
+    wire, a k-seeded pseudo-random number (0..k) more before each wire and each memory, so that
+    relative addresses (identity hashes) of wires and of memories change non-uniformly"""
+    import random
     import pyrtl
     global _k
     _k = k
+    rng = random.Random(k)
     orig = pyrtl.WireVector.__init__
 
     def init(self, *a, **kw):
-        for _ in range(_k):
+        for _ in range(_k + (rng.randrange(_k + 1) if _k else 0)):
             _keep.append(_Junk())
         return orig(self, *a, **kw)
     pyrtl.WireVector.__init__ = init
+    for cls in (pyrtl.MemBlock, pyrtl.RomBlock):
+        def wrap(cls):
+            o = cls.__init__
+
+            def minit(self, *a, **kw):
+                for _ in range(rng.randrange(_k + 1) if _k else 0):
+                    _keep.append(_Junk())
+                return o(self, *a, **kw)
+            cls.__init__ = minit
+        wrap(cls)
 
 
 def build(variant):
@@ -54,6 +68,32 @@ def build(variant):
         r.next <<= r + d
         o2 = pyrtl.Output(3, 'o2')
         o2 <<= r
+        return pyrtl.working_block()
+    elif variant == 'mems_same_name':
+        # memory names, unlike memory ids, need not be unique
+        a = pyrtl.Input(2, 'a')
+        d = pyrtl.Input(4, 'd')
+        we = pyrtl.Input(1, 'we')
+        outs = []
+        for i in range(4):
+            m = pyrtl.MemBlock(4, 2, 'm', asynchronous=True)
+            m[a] <<= pyrtl.MemBlock.EnabledWrite((d + i)[:4], we)
+            outs.append(m[a])
+        for i in range(4):
+            r = pyrtl.RomBlock(4, 2, [(3 * i + j) % 16 for j in range(4)], name='rom', asynchronous=True)
+            outs.append(r[a])
+        for i, w in enumerate(outs):
+            o = pyrtl.Output(4, 'o%d' % i)
+            o <<= w
+        return pyrtl.working_block()
+    elif variant == 'rom_clones':
+        # a ROM read through more ports than max_read_ports is cloned under the same name
+        a = pyrtl.Input(2, 'a')
+        r = pyrtl.RomBlock(4, 2, [5, 9, 2, 14], name='rom', max_read_ports=1, build_new_roms=True,
+                           asynchronous=True)
+        for i in range(5):
+            o = pyrtl.Output(4, 'o%d' % i)
+            o <<= r[(a + i)[:2]]
         return pyrtl.working_block()
     elif variant == 'regs_tie':
         regs = [pyrtl.Register(2, n, reset_value=i % 4) for i, n in enumerate(['r1', 'r01', 'r001', 'r0001', 's1', 's01'])]
@@ -142,11 +182,28 @@ def readonly(design):
         'sanity_check': lambda b: b.sanity_check(),
         'iter': lambda b: list(b),
     }
+    def roms(b):
+        return sorted((m for m in {n.op_param[1] for n in b.logic if n.op in 'm@'}
+                       if isinstance(m, pyrtl.RomBlock)), key=lambda m: m.id)
+
+    def rom_contents(b):
+        """every address of every ROM (a ROM's contents are part of the design's behaviour)"""
+        out = {}
+        for m in roms(b):
+            vals = []
+            for a in range(1 << m.addrwidth):
+                try:
+                    vals.append(m._get_read_data(a))
+                except pyrtl.PyrtlError:
+                    vals.append('invalid')
+            out[m.id] = vals
+        return out
     for nm, fn in calls.items():
         b = fresh()
         with pyrtl.set_working_block(b, no_sanity_check=True):
             fp0 = fingerprint(b)
             tr0 = sim_trace(b)
+            rc0 = rom_contents(b)
             try:
                 with contextlib.redirect_stdout(io.StringIO()):
                     fn(b)
@@ -159,6 +216,8 @@ def readonly(design):
                 probs.append('%s modified the block' % nm)
             elif sim_trace(b) != tr0:
                 probs.append('%s changed the simulated behaviour' % nm)
+            elif rom_contents(b) != rc0:
+                probs.append('%s changed ROM contents' % nm)
     # simulation + trace printing + testbench
     b = fresh()
     with pyrtl.set_working_block(b, no_sanity_check=True):
@@ -194,6 +253,29 @@ def readonly(design):
         except pyrtl.PyrtlError as e:
             if 'nand' not in str(e).lower() and 'not supported' not in str(e).lower():
                 probs.append('output_to_firrtl raised %s' % str(e)[:80])
+    # ... also when ROMs are passed for initialisation (function ROMs are materialised in place)
+    b = fresh()
+    if roms(b):
+        with pyrtl.set_working_block(b, no_sanity_check=True):
+            tr0 = sim_trace(b)
+            rc0 = rom_contents(b)
+            try:
+                try:
+                    pyrtl.output_to_firrtl(io.StringIO(), rom_blocks=roms(b), block=b)
+                except pyrtl.PyrtlError:
+                    raise
+                except Exception:
+                    pass   # a refused / crashed export is not this property's concern; its effects are
+                if rom_contents(b) != rc0:
+                    probs.append('output_to_firrtl(rom_blocks=...) changed ROM contents')
+                tr1 = sim_trace(b)
+                if {k_: v for k_, v in tr1.items() if k_ in tr0} != tr0 and \
+                        {k_: v for k_, v in tr1.items() if k_ in outs0} != \
+                        {k_: v for k_, v in tr0.items() if k_ in outs0}:
+                    probs.append('output_to_firrtl(rom_blocks=...) changed the behaviour of the block')
+            except pyrtl.PyrtlError as e:
+                if 'nand' not in str(e).lower() and 'not supported' not in str(e).lower():
+                    probs.append('output_to_firrtl(rom_blocks=...) raised %s' % str(e)[:80])
     return dict(failed=bool(probs), observed=probs, expected=[])
 
 
